@@ -111,6 +111,22 @@ CHECKS['C11'] = ('exploration',
     'Pools, not all argument tuples; optional arguments not exercised; quick tier runs the 3-argument pool on a seeded quarter of the table. ' + TB,
     'DESIGN.md §3 C11')
 
+CHECKS['C15'] = ('exploration',
+    'CrossHair/z3 path exploration over (constants, requested outputs) selectors; every explored path loads real .xlsx files fully and from the chosen outputs and compares the calculated values',
+    'Bounded exhaustive exploration driven by the symbolic executor: for a two-sheet workbook with whole-column / whole-row references, a defined name, an array formula and readers of its spilled cell, ExcelModel().from_ranges(*outputs).finish().calculate() gives on every requested output exactly the value of the fully loaded workbook, for the explored constants and output sets (all 2047 non-empty sets for two constants in the thorough tier); completing / finishing the partial model again changes neither its nodes nor its results.',
+    'Selectors only, one workbook family written by the harness, no references between workbook files: exploration of a file-backed scenario, nothing about arbitrary workbooks. ' + TB,
+    'DESIGN.md §7.6')
+CHECKS['C16'] = ('exploration',
+    'CrossHair/z3 path exploration over (template, constants, override set, way of writing) selectors; every explored path runs the real write() / compare() and reads the books back',
+    'Bounded exhaustive exploration driven by the symbolic executor: every solved cell - each cell of multi-cell ranges included - is found in the written books at its own sheet and coordinates with the solved value (errors as text, blanks and empty text as empty cells), nothing else is written, foreign cells of pre-existing books are untouched, and compare() of the model with its own files written to disk reports no difference; 3 template families, value kinds of every type, 8 override sets, 3 ways of writing.',
+    'Selectors only; dictionary-built models; formats / styles outside. ' + TB,
+    'DESIGN.md §7.6')
+CHECKS['C17'] = ('exploration',
+    'CrossHair/z3 path exploration over (template, kind of copy, interleaved operations, override set) selectors; every explored path runs deepcopy / dill and the real models',
+    'Bounded exhaustive exploration driven by the symbolic executor: a deep copy, a dill round trip and a copy of a dill copy of a model (with or without a history) and of compiled functions compute exactly what a fresh model computes for the explored override sets / arguments, and an operation on one (16 kinds: calculations with overrides, compile + call, to_dict, write, re-finishing ...) never changes the results of the other; circular models included.',
+    'Selectors only; one operation on each side of the interleaving. ' + TB,
+    'DESIGN.md §7.6')
+
 NA = {
     'C15': 'the dependency closure is computed over openpyxl worksheets read from .xlsx files while mutating the schedula dispatcher; neither can be given a symbolic state (DESIGN §4)',
     'C16': 'placement is done by openpyxl range iteration zipped with np.ravel and compared by re-reading files: I/O and third-party C code, no encodable kernel (DESIGN §4)',
